@@ -120,6 +120,17 @@ impl<'a> Skel<'a> {
                 let v = self.precise(a).unwrap_or_else(|| "sk_nondet()".to_string());
                 text = text.replace(&ph, &v);
             }
+            let ph3 = format!("{{index_arg{}}}", i);
+            if text.contains(&ph3) {
+                // `&args[N]` -> N (literal index), anything else -> -1 (dynamic)
+                let t = norm(&self.src(a.span()));
+                let idx = t.find('[').and_then(|p| t[p + 1..].find(']').map(|q| t[p + 1..p + 1 + q].to_string()));
+                let v = match idx {
+                    Some(x) if x.chars().all(|c| c.is_ascii_digit()) && !x.is_empty() => x,
+                    _ => "-1".to_string(),
+                };
+                text = text.replace(&ph3, &v);
+            }
             let ph2 = format!("{{last_seg_arg{}}}", i);
             if text.contains(&ph2) {
                 match last_seg(a) {
@@ -310,7 +321,17 @@ impl<'a> Skel<'a> {
                     Some((_, eb)) => self.sub(|s, v| s.expr(eb, false, v)),
                     None => vec![],
                 };
-                self.branchy(vec![t, el], out, "if");
+                // a condition over kept identifiers only is kept exactly
+                match self.precise(&i.cond) {
+                    Some(c) if !(t.is_empty() && el.is_empty()) => {
+                        out.push(format!("{}if {} {{ // if (condition kept)", self.pad(), c));
+                        out.extend(t);
+                        out.push(format!("{}}} else {{", self.pad()));
+                        out.extend(el);
+                        out.push(format!("{}}}", self.pad()));
+                    }
+                    _ => self.branchy(vec![t, el], out, "if"),
+                }
             }
             Expr::Match(m) => {
                 self.expr(&m.expr, false, out);
@@ -463,7 +484,7 @@ pub fn build(sf: &SourceFile, cfg: &Value, name: &str, body: SkBody) -> (String,
     let header = cfg["header"].as_str().map(|s| s.to_string()).unwrap_or_else(|| format!("fn {}() -> (r: Result<(), Viol>)", name));
     let closure_header = cfg["closure_header"].as_str().unwrap_or("fn {name}() -> (r: Result<(), Viol>)").to_string();
     let tail = cfg["tail"].as_str().unwrap_or("Ok(())").to_string();
-    let attr = cfg["attr"].as_str().unwrap_or("#[verifier::loop_isolation(false)]");
+    let attr = cfg["attr"].as_str().unwrap_or("#[verifier::loop_isolation(false)]\n#[verifier::exec_allows_no_decreases_clause]");
     let mut text = String::new();
     text.push_str(&format!("{}\n{}\n{{\n", attr, header.trim()));
     if cfg["canary"].as_bool().unwrap_or(false) {
